@@ -1,6 +1,8 @@
 (* c18_driver: evaluate the extracted connection set-up model (Model/Sasl.v, run_case) on the
    harness's cases.
-   input  line: <id> run <path> <mech> <hsmax> <authmax> <cred> <fstep> <fkind> <credidx> | ...
+   input  line: <id> addr <api> <mech> <addrclass> <hsmax> | ...
+                <id> conc <path> <mech> <hsmax> <pattern of r/w/n> | ...
+                <id> run <path> <mech> <hsmax> <authmax> <cred> <fstep> <fkind> <credidx> | ...
                 <id> rawread <path> <mech> <cred> <fstep> <prefix> <npayload> <close|silent> | ...
    output line: <id> J=<journal> E=<0|1> C=<0|1>   |   <id> MECHERR
 
@@ -47,7 +49,7 @@ let render ?(fault_at = -1) (s : nat state) : string =
         if is_fault_reaction r || !nrecv = fault_at then failed := true;
         incr nrecv
       | EVerdict -> if not !failed then toks := "V" :: !toks
-      | EHandOut | EClose -> ()) (trace s);
+      | EHandOut | EClose | ERefused -> ()) (trace s);
     let j = if !toks = [] then "." else String.concat "," (List.rev !toks) in
     let e = if handed_out s then "0" else "1" in
     let c = (match s.ph with PFailed -> "1" | _ -> "0") in
@@ -63,7 +65,7 @@ let eval (op : string) (a : string list) : string =
       let c = (match cred with
           | "right" -> CredRight | "wrongpw" -> CredWrongPassword | "nouser" -> CredUnknownUser
           | _ -> failwith "cred") in
-      let adv = { hs_max = opt_ver hs; auth_max = opt_ver au } in
+      let adv = { hs_max = opt_ver hs; auth_max = opt_ver au; dial_addr = AddrNumericPort } in
       let fault = if fstep = "-" then None
         else if String.length fkind > 4 && String.sub fkind 0 4 = "err:" then begin
           (* "err:<code>:<null|empty|text|->": the response of that step as the broker encodes
@@ -80,6 +82,41 @@ let eval (op : string) (a : string list) : string =
         else Some (nat_of_int (int_of_z (z_of_hex fstep)), reaction_of_kind fkind) in
       render (run_case p adv k c fault)
     end
+  | "addr", [api; mech; addr; hs] ->
+    (* the dial address class; api: d DialContext, dl Dial, lp LookupPartition, ld DialLeader
+       (a second connection, to the leader's numeric address: X=), t Transport, tr Transport
+       with a BrokerResolver (grabConnOrConnect looks at the address BEFORE dialling: a
+       refused address makes no connection at all, which is outside the one-connection model) *)
+    let p = (match api with "d" | "dl" | "lp" | "ld" -> Dialer | "t" | "tr" -> Transport | _ -> failwith "api") in
+    let k = (match mech with "plain" -> MPlain | "s256" | "s512" -> MScram | _ -> failwith "mech") in
+    let ac = (match addr with
+        | "num" -> AddrNumericPort | "noport" -> AddrNoPort | "svc" -> AddrServiceName | "ipv6" -> AddrIPv6
+        | "zero" -> AddrPortZero | "huge" -> AddrPortHuge | "empty" -> AddrEmpty | _ -> failwith "addr") in
+    let hsv = opt_ver hs in
+    let au = (match hsv with Some v when int_of_z v >= 1 -> Some (z_of_int 1) | _ -> None) in
+    if api = "tr" && addr = "svc" then "NOCONN E=1" else begin
+      let s = run_case p { hs_max = hsv; auth_max = au; dial_addr = ac } k CredRight None in
+      let base = render s in
+      if api = "ld" then begin
+        if handed_out s then
+          base ^ " X=" ^ (let s2 = run_case p { hs_max = hsv; auth_max = au; dial_addr = AddrNumericPort } k CredRight None in
+                          let r = render s2 in
+                          (* J=<journal> E=.. C=.. -> the journal *)
+                          String.sub r 2 (String.index r ' ' - 2))
+        else base ^ " X=-"
+      end else base
+    end
+  | "conc", [path; mech; hs; pattern] ->
+    (* overlapping set-ups over one Mechanism value: sessions are independent, each connection is
+       the single-connection model of its own script *)
+    let p = (match path with "d" -> Dialer | "t" -> Transport | _ -> failwith "path") in
+    let k = (match mech with "plain" -> MPlain | "s256" | "s512" -> MScram | _ -> failwith "mech") in
+    let hsv = opt_ver hs in
+    let au = (match hsv with Some v when int_of_z v >= 1 -> Some (z_of_int 1) | _ -> None) in
+    let one ch =
+      let c = (match ch with 'r' -> CredRight | 'w' -> CredWrongPassword | 'n' -> CredUnknownUser | _ -> failwith "pattern") in
+      render (run_case p { hs_max = hsv; auth_max = au; dial_addr = AddrNumericPort } k c None) in
+    String.concat " / " (List.map one (List.init (String.length pattern) (String.get pattern)))
   | "rawread", [path; mech; cred; fstep; prefix; npayload; ending] ->
     let p = (match path with "d" -> Dialer | "t" -> Transport | _ -> failwith "path") in
     let k = (match mech with "plain" -> MPlain | "s256" | "s512" -> MScram | _ -> failwith "mech") in
